@@ -2,6 +2,7 @@ package node
 
 import (
 	"fmt"
+	"unicode/utf8"
 
 	"github.com/freeconf/yang/meta"
 	"github.com/freeconf/yang/val"
@@ -79,7 +80,8 @@ func (fieldConstraints) lenCheck(s string, lengths []*meta.Range) error {
 	}
 	// every length statement along the typedef chain restricts further
 	for _, length := range lengths {
-		if err := length.CheckValue(val.Int32(len(s))); err != nil {
+		// RFC7950 Sec 9.4.4 length is in characters, not bytes
+		if err := length.CheckValue(val.Int32(utf8.RuneCountInString(s))); err != nil {
 			return fmt.Errorf("string length outside allowed ranges. %s", s)
 		}
 	}
